@@ -242,6 +242,33 @@ impl Shell {
         }
     }
 
+    /// Enqueue a datagram on the uplink channel exactly as a reader task does.
+    pub fn enqueue_uplink(&mut self, idx: usize, bytes: &[u8]) {
+        if let Some(conn) = self.st.conns.get(idx) {
+            let _ = self.st.packet_tx.send(vh::UplinkPacket { conn_id: conn.conn_id, bytes: SmallVec::from_slice_copy(bytes) });
+        }
+    }
+
+    /// One bounded drain pass of the uplink channel (what every event-loop arm ends with).
+    pub fn drain_queue(&mut self) {
+        self.sync_clock();
+        let Shell { rt, st } = self;
+        rt.block_on(vh::drain_packet_queue(
+            &mut st.packet_rx,
+            &mut st.conns,
+            &st.conn_io,
+            &mut st.reg,
+            &st.instant_tx,
+            st.last_client_addr,
+            &st.listener,
+            &st.seq_tracker,
+            &st.cfg,
+        ));
+        while let Ok((_, p)) = st.instant_rx.try_recv() {
+            st.instant_forwarded.push(p.to_vec());
+        }
+    }
+
     /// The 15 ms batch flush arm.
     pub fn flush_tick(&mut self) {
         self.sync_clock();
